@@ -425,8 +425,8 @@ def OpSt.pp? : OpSt → Option PP
 
 /-- local well-formedness of an operation in flight, and its output registers are free -/
 def OpSt.ok (K N : Nat) (s : Shared) : OpSt → Prop
-  | .load c g ld => ld.ok ∧ c < N ∧ g < N ∧ s.greg g = none
-  | .loadFull c h ld => ld.ok ∧ c < N ∧ h < N ∧ s.hreg h = none
+  | .load c g ld => ld.ok K ∧ c < N ∧ g < N ∧ s.greg g = none
+  | .loadFull c h ld => ld.ok K ∧ c < N ∧ h < N ∧ s.hreg h = none
   | .loadFullInto _ h r gi => gi.ok K r ∧ h < N ∧ s.hreg h = none
   | .cloneh h h2 _ => h < N ∧ h2 < N ∧ h ≠ h2 ∧ s.hreg h = none ∧ s.hreg h2 = none
   | .dropg gd => gd.ok K
@@ -454,6 +454,7 @@ open Consts
     registers and the stepping thread's units change by — for any shared state. -/
 theorem microStep_cons (K N : Nat) (st : State) (t : Nat) (b : Bool)
     (hk : (st.th t).op.ok K N st.sh) (hn : (st.th t).loc.node.getD 0 < K) (hb : Beyond st.sh)
+    (hK : st.sh.nNodes ≤ K)
     (hnh : ∀ h r x m, (st.th t).op.pp? = some (.h7 h r x m) → (st.sh.nodes h.who).control ≠ h.ctl)
     (hroom : ∀ v, (st.sh.heap (alloc st.sh v).2.1).cnt = 0)
     (hnext : ∀ txt o rest, (st.th t).prog = (txt, o) :: rest →
@@ -625,7 +626,7 @@ theorem microStep_cons (K N : Nat) (st : State) (t : Nat) (b : Bool)
   | swapPay c out old isStore pp =>
     rw [hop] at hk hnh
     obtain ⟨hpk, hout⟩ := hk
-    have hc := stepPP_cons K st.cfg old c st.sh (st.th t).loc b pp hpk hn hb (fun h r x m e => hnh h r x m (by simp [OpSt.pp?, e]))
+    have hc := stepPP_cons K st.cfg old c st.sh (st.th t).loc b pp hpk hn hb hK (fun h r x m e => hnh h r x m (by simp [OpSt.pp?, e]))
     have hfr := (stepPP_frame st.cfg old c st.sh (st.th t).loc b pp).1
     have hhg := stepPP_hg st.cfg old c st.sh (st.th t).loc b pp
     simp only [microStep, hop] at hf ⊢
@@ -666,7 +667,7 @@ theorem microStep_cons (K N : Nat) (st : State) (t : Nat) (b : Bool)
   | cas c cur keep curPtr new g cp =>
     rw [hop] at hk hnh
     obtain ⟨hcpk, hcN, hgN, hgfree, hcur⟩ := hk
-    have hc := stepCP_cons K N st.cfg c curPtr new st.sh (st.th t).loc b cp hcpk hn hcN hb
+    have hc := stepCP_cons K N st.cfg c curPtr new st.sh (st.th t).loc b cp hcpk hn hcN hb hK
       (fun old h r x m e => hnh h r x m (by simp [OpSt.pp?, CP.pp?, e]))
     have hhg := stepCP_hg st.cfg c curPtr new st.sh (st.th t).loc b cp
     simp only [microStep, hop] at hf ⊢
@@ -716,7 +717,7 @@ theorem microStep_cons (K N : Nat) (st : State) (t : Nat) (b : Bool)
   | rcu c out tries rp =>
     rw [hop] at hk hnh
     obtain ⟨hrk, hcN, hoN, hofree⟩ := hk
-    have hc := stepRP_cons K N st.cfg c st.sh (st.th t).loc b tries rp hrk hn hcN hb
+    have hc := stepRP_cons K N st.cfg c st.sh (st.th t).loc b tries rp hrk hn hcN hb hK
       (fun cur a old h r x m e => hnh h r x m (by simp [OpSt.pp?, CP.pp?, e])) (fun _ _ => hroom)
     have hhg := stepRP_hg st.cfg c st.sh (st.th t).loc b tries rp
     simp only [microStep, hop] at hf ⊢
@@ -739,7 +740,7 @@ theorem microStep_cons (K N : Nat) (st : State) (t : Nat) (b : Bool)
   | cinto c h p pp =>
     rw [hop] at hk hnh
     obtain ⟨hpk, hcN, hhN, hhfree, hcell⟩ := hk
-    have hc := stepPP_cons K st.cfg p c st.sh (st.th t).loc b pp hpk hn hb (fun h r x m e => hnh h r x m (by simp [OpSt.pp?, e]))
+    have hc := stepPP_cons K st.cfg p c st.sh (st.th t).loc b pp hpk hn hb hK (fun h r x m e => hnh h r x m (by simp [OpSt.pp?, e]))
     have hfr := (stepPP_frame st.cfg p c st.sh (st.th t).loc b pp).1
     have hhg := stepPP_hg st.cfg p c st.sh (st.th t).loc b pp
     simp only [microStep, hop] at hf ⊢
@@ -759,7 +760,7 @@ theorem microStep_cons (K N : Nat) (st : State) (t : Nat) (b : Bool)
   | dropc c p pp =>
     rw [hop] at hk hnh
     obtain ⟨hpk, hcN, hcell⟩ := hk
-    have hc := stepPP_cons K st.cfg p c st.sh (st.th t).loc b pp hpk hn hb (fun h r x m e => hnh h r x m (by simp [OpSt.pp?, e]))
+    have hc := stepPP_cons K st.cfg p c st.sh (st.th t).loc b pp hpk hn hb hK (fun h r x m e => hnh h r x m (by simp [OpSt.pp?, e]))
     have hfr := (stepPP_frame st.cfg p c st.sh (st.th t).loc b pp).1
     have hhg := stepPP_hg st.cfg p c st.sh (st.th t).loc b pp
     simp only [microStep, hop] at hf ⊢
